@@ -84,6 +84,7 @@ class Cfg:
     shadow: float = 0.5  # probability a parameter name is drawn from header names
     general_numbers: bool = True  # full literal mixture (else small numbers only)
     let_counts: bool = True
+    macro_bias: int = 2  # a gate statement is a macro call with probability 1/(macro_bias+1)
 
 
 @dataclass
@@ -303,7 +304,7 @@ class Builder:
     def gate_stmt(self, allow_sub_macros):
         d, sc, cfg = self.draw, self.sc, self.cfg
         macros = [m for m in sc.macros if allow_sub_macros or not m[2]]
-        if macros and d(st.integers(0, 2)) == 0:
+        if macros and d(st.integers(0, cfg.macro_bias)) == 0:
             name, roles, _hs = d(st.sampled_from(macros))
             args = []
             for role, c in roles:
@@ -462,12 +463,19 @@ def progs(cfg=None):
 # ------------------------------------------------------------------------------ overrides
 
 
-def int_position_lets(prog):
-    """Names of lets that occur in an integer position (index, size, bound, count)."""
+def int_position_lets(prog, natives=None):
+    """Names of lets that occur in an integer position (index, size, bound, count, or an
+    argument of a native gate parameter declared INT)."""
     from .model import all_stmts
 
     lets = {n for n, _ in prog["lets"]}
     used = set()
+    if natives:
+        for s in all_stmts(prog):
+            if s[0] == "g" and s[1] in natives:
+                for a, k in zip(s[2], natives[s[1]]):
+                    if k == "i" and a[0] == "id":
+                        used.add(a[1])
     if prog["reg"] and isinstance(prog["reg"][1], str):
         used.add(prog["reg"][1])
     for _n, _src, sel in prog["maps"]:
@@ -493,13 +501,13 @@ def int_position_lets(prog):
     return used & lets
 
 
-def overrides(draw, prog, max_tries=3):
+def overrides(draw, prog, natives=None):
     """Draw an override dictionary over a subset of the lets that keeps the program valid
     (decided by the reference semantics); invalid candidates are dropped key by key."""
     lets = [n for n, _ in prog["lets"]]
     if not lets:
         return {}
-    intpos = int_position_lets(prog)
+    intpos = int_position_lets(prog, natives)
     chosen = draw(st.lists(st.sampled_from(lets), unique=True, max_size=len(lets)))
     env = {}
     for n in chosen:
@@ -509,12 +517,11 @@ def overrides(draw, prog, max_tries=3):
             env[n] = draw(st.one_of(st.integers(-4, 9), st.sampled_from([0.5, -1.25, 3.0, 1e-06, 2.5e-05]), floats()))
     for n in list(env):
         try:
-            r = Ref(prog, env)
-            r.meaning()
+            Ref(prog, env).validate()
         except Invalid:
             del env[n]
     try:
-        Ref(prog, env).meaning()
+        Ref(prog, env).validate()
     except Invalid:
         env = {}
     return env
